@@ -832,7 +832,7 @@ impl<'tcx> M<'tcx> {
                         // discriminant value of that variant
                         if let ty::Adt(a, _) = t.kind() {
                             let d = a.discriminant_for_variant(tcx, rustc_abi::VariantIdx::from_u32(var));
-                            Ok(V::Int(d.val as i128))
+                            Ok(V::Int(int_norm(tcx, t.discriminant_ty(tcx), d.val as i128)))
                         } else {
                             Ok(V::Int(var as i128))
                         }
